@@ -257,7 +257,7 @@ _line_contract("_vertline_dist_sequential_missingvalues", True, True, True, True
 _line_contract("_diagline_dist_sequential_missingvalues", False, True, True, True)
 
 # ============================================================================ core: grid distances (C12)
-K("_calculate_angular_distance", "core", props=("C12", "C20"),
+K("_calculate_angular_distance", "core", props=("C12", "C20"), float_mode="UF",
   requires=["N>=0", "shape(cos_lat,0)==N", "shape(sin_lat,0)==N", "shape(cos_lon,0)==N", "shape(sin_lon,0)==N",
             "shape(cosangdist,0)==N", "shape(cosangdist,1)==N"],
   ghost={"ce": ("int", "int", "float")},
@@ -404,7 +404,9 @@ def _newman_contract(name, nsi):
             f"all(Jn(i,j+1)=={jstep} {dom})"]
     done = "all(this_betweenness[r]==Jn(r+start_i,N) for r in range({hi}))"
     zero = "all(this_betweenness[r]==0 for r in range({lo},end_i-start_i))"
-    return K(name, "core", props=("C19", "C03", "C02", "C20"), requires=req, ghost=ghost, defs=defs,
+    # float_mode UF: every float operation is uninterpreted, so "equals the triple-sum definition" means
+    # "computes exactly these operations in exactly this order" and the obligations are pure EUF + arrays
+    return K(name, "core", props=("C19", "C03", "C02", "C20"), requires=req, ghost=ghost, defs=defs, float_mode="UF",
              ensures=["shape(result[0],0)==end_i-start_i", "all(result[0][r]==Jn(r+start_i,N) for r in range(end_i-start_i))",
                       "result[1]==start_i and result[2]==end_i"],
              loops={"i_rel": [done.format(hi="i_rel"), zero.format(lo="i_rel"), "this_N==end_i-start_i"],
